@@ -8,6 +8,10 @@ immediate, lifecycle order) and bound to the real pox.core.POXCore:
     a sample is also replayed through pox.boot.boot() (command line order);
   * code -> spec: seeded random operation sequences on a real POXCore recorded
     and validated by TLC against TraceRendezvous.tla, with negative controls.
+How a declaration hands its component names over is a dimension of the spec
+(args.f: a fresh collection / a one-shot iterator / a collection the caller
+owns, changes afterwards (action Mutate) and re-uses): catalog I explores it
+exhaustively, T / U (simulation, random traces) sample it.
 """
 import copy
 import random
@@ -22,6 +26,9 @@ REND = ["Register", "CallWhenReady", "ListenTo", "GoUp"]
 # lifecycle actions that each catalog must exercise (vacuity guard)
 LIFE = {"A": ["GetDeferral", "Release", "Quit"], "B": ["GetDeferral", "Release", "Quit"],
         "L2": ["Release", "Quit"], "L3": ["Release", "Quit"], "R": ["GetDeferral", "Release"], "RQ": ["GetDeferral", "Release"]}
+# catalogs I / J have no lifecycle: the caller's collections instead
+REQUIRED = {"I": ["Register", "CallWhenReady", "ListenTo", "Mutate"],
+            "J": ["Register", "CallWhenReady", "ListenTo", "Mutate"]}
 SPEC = "core"
 MOD = "MCRendezvous"
 
@@ -57,7 +64,7 @@ def nontrivial(beh):
 
 
 CLASS_KEYS = ("action", "via", "observed", "callback", "container", "handlers", "observed_life",
-              "expected_life", "fired_extra", "fired_missing", "fields", "life")
+              "expected_life", "fired_extra", "fired_missing", "fields", "life", "decl", "op")
 
 
 def _one_replay_per_class(ctx, keep=2):
@@ -103,12 +110,17 @@ def run(ctx):
       "harness inside a virtual time.sleep; concurrent quit() calls and quit() during start-up (thread "
       "respawn loop) are not explored",
       "the order in which simultaneously ready waiters are invoked is latitude (spec exports every order)",
+      "a waiter names the components its `components` argument holds when call_when_ready / "
+      "listen_to_dependencies is called, however they are handed over (fresh collection of any iterable kind, "
+      "one-shot iterator, a collection the caller keeps and changes or re-uses afterwards); exhaustive for "
+      "2 components / 3 waiters / one caller-owned collection (catalog I; thorough also J: 3 components), "
+      "sampled for 5 / 5 / 2; the args / kw / listen_args arguments are not varied",
       "GoingUp deferrals are obtained through event.get_deferral(), by GoingUp handlers or later from the "
       "kept event; lifecycle events are expected synchronously inside goUp() / the deferral call / quit()",
       "what a sink gets when its rendezvous happens (listeners for its _handle_<component>_<Event> methods, "
       "attributes, _all_dependencies_met) is taken from listen_to_dependencies' documentation"]
-  mc_cfgs = ["QA", "QB", "L2", "RQ"] if quick else ["A", "B", "C", "L3", "R"]
-  ex_cfgs = ["QA", "QB", "L2", "RQ"] if quick else ["QA", "QB", "L2", "R", "L3", "C"]
+  mc_cfgs = ["QA", "QB", "L2", "RQ", "I"] if quick else ["A", "B", "C", "L3", "R", "I", "J"]
+  ex_cfgs = ["QA", "QB", "L2", "RQ", "I"] if quick else ["QA", "QB", "L2", "R", "L3", "C", "I"]
   nsim = 80 if quick else 2500
   with ThreadPoolExecutor(max_workers=4 if quick else 6) as pool:
     f_mc = [(c, pool.submit(_mc, c)) for c in mc_cfgs]
@@ -119,10 +131,15 @@ def run(ctx):
       r = f.result()
       if r.violated:
         raise tlc.TLCError("spec violates its own property %s (%s):\n%s" % (r.violated, c, r.error_trace))
-      tlc.require_coverage(r, REND + LIFE.get(c, []), "Rendezvous " + c)
+      tlc.require_coverage(r, REQUIRED.get(c) or REND + LIFE.get(c, []), "Rendezvous " + c)
       ctx.add_model("Rendezvous catalog %s" % c, r)
     exported = [(c, f.result()) for c, f in f_ex]
     sims = [(c, f.result()) for c, f in f_sim]
+  # the exported behaviours are a large, static heap that every replay worker inherits by fork: keep it out of
+  # the collector's way here, once, instead of letting each worker collect it (adapters_c08._freeze_once)
+  import gc
+  gc.collect()
+  gc.freeze()
   lap("tlc_model_checking_and_export")
   # 2. spec -> code: every transition of the abstract graphs
   for c, (cat, behs) in exported:           # literal samples worth reading first
@@ -132,11 +149,26 @@ def run(ctx):
   cats = {}
   for i, (c, (cat, behs)) in enumerate(exported):
     cats[c] = cat
+    if cat["colls"]:
+      # A behaviour that ENDS in Mutate makes no call into core after its prefix (itself an exported
+      # behaviour): nothing new can be observed.  Mutate steps inside behaviours are all kept.
+      n0 = len(behs)
+      behs = [b for b in behs if b[-1]["a"] != "Mutate"]
+      ctx.notes["replay_%s_dropped_ending_in_Mutate" % c] = n0 - len(behs)
+      # the concrete kinds of iterator (6) / caller-owned collection (5) are chosen per operation from the
+      # operations made before it (`vary`): one replay run spreads all of them over the state graph
+      for k in range(1 if quick else 3):
+        style = (ctx.seed + 5 * i + 7 * k) % 24
+        tr = time.time()
+        st = core.replay(ctx, ADAPTER, behs, params=dict(catalog=cat, style=style, vary=True), nontrivial=nontrivial)
+        ctx.notes["replay_%s_style%d" % (c, style)] = dict(behaviours=len(behs), wall_s=round(time.time() - tr, 1), **st)
+      continue
     for k in range(1 if quick or len(behs) > 50000 else 2):
       style = (ctx.seed + 5 * i + 7 * k) % 24
+      tr = time.time()
       st = core.replay(ctx, ADAPTER, behs, params=dict(catalog=cat, style=style),
                        nontrivial=nontrivial)
-      ctx.notes["replay_%s_style%d" % (c, style)] = dict(behaviours=len(behs), **st)
+      ctx.notes["replay_%s_style%d" % (c, style)] = dict(behaviours=len(behs), wall_s=round(time.time() - tr, 1), **st)
   # a failing ComponentRegistered listener must not disturb the rendezvous
   cat, behs = exported[0][1]
   st = core.replay(ctx, ADAPTER, behs if not quick else behs[::4],
@@ -187,6 +219,8 @@ def run(ctx):
                  life=[e["n"] for e in ev["obs"]["log"] if e["k"] == "life"])
       if ev["a"] in ("CallWhenReady", "ListenTo"):
         sig["deps"] = len(ev["args"]["deps"])
+      if pending_forms(traces[t], matched):
+        sig["decl"] = pending_forms(traces[t], matched)
       if ev["a"] == "GoUp":
         sig["handlers"] = "+".join(".".join(op["k"] for op in p) or "none" for p in ev["args"]["hs"]) or "-"
         sig["up"] = ".".join(op["k"] for op in ev["args"]["up"]) or "none"
@@ -213,7 +247,7 @@ KINDS = ["none", "hold", "sync", "relprev"]
 
 
 def _args(**kw):
-  a = dict(c="-", w="-", deps=[], hs=[], up=[], o="-", re=False)
+  a = dict(c="-", w="-", deps=[], hs=[], up=[], o="-", re=False, f="-")
   a.update(kw)
   return a
 
@@ -267,6 +301,8 @@ def drive(arg):
         ops.append(("GetDeferral", 1))
     if ad.held:
       ops.append(("Release", 3))
+    if ad.colls:
+      ops.append(("Mutate", 3))
     k = rnd.choices([o for o, _ in ops], [w for _, w in ops])[0]
     if k == "Register":
       a, args = "Register", _args(c=rnd.choice(comps))
@@ -274,7 +310,16 @@ def drive(arg):
       w = rnd.choice(new)
       deps = [c for c in comps if rnd.random() < rnd.choice([0.0, 0.2, 0.4, 0.7])]
       a = "CallWhenReady" if cat["kind"][w] == "cb" else "ListenTo"
-      args = _args(w=w, deps=deps)
+      # how the names are handed over: through a collection of the caller's
+      # they are whatever the caller has put into it so far
+      f = rnd.choice(list(cat["forms"]) * 2 + sorted(ad.colls) * 3)
+      if f in ad.colls:
+        deps = ad.coll_syms(f)
+      args = _args(w=w, deps=deps, f=f)
+    elif k == "Mutate":
+      f = rnd.choice(sorted(ad.colls))
+      c = rnd.choice(comps)
+      a, args = "Mutate", _args(f=f, c=c, o="del" if c in ad.coll_syms(f) else "add")
     elif k == "GoUp":
       goneup = True
       a = "GoUp"
@@ -307,6 +352,25 @@ def drive(arg):
       break
   ad.close()
   return tr
+
+
+def pending_forms(trace, upto):
+  """how the waiters still pending before event `upto` (and the one declared
+  by it) had their names handed over: fresh / once / own / own+add / own+del"""
+  form = {}
+  for e in trace[:upto + 1]:
+    a = e["args"]
+    if e["a"] in ("CallWhenReady", "ListenTo"):
+      form[a["w"]] = [a["f"], "own" if a["f"].startswith("k") else a["f"]]
+    elif e["a"] == "Mutate":
+      for w, v in form.items():
+        if v[0] == a["f"] and not v[1].endswith("+" + a["o"]):
+          v[1] += "+" + a["o"]
+    if e is not trace[upto]:
+      for x in e["obs"]["log"]:
+        if x["k"] == "fire":
+          form.pop(x["n"], None)
+  return sorted(set(v[1] for v in form.values()))
 
 
 def negative_controls(traces):
@@ -347,4 +411,32 @@ def negative_controls(traces):
   if t:
     t[i]["obs"]["wired"] = t[i]["obs"]["wired"][1:]
     out.append(("a sink's listener missing after its rendezvous", src, t[:i + 1]))
+  # a waiter declared through a collection of the caller's which the caller
+  # then changed: it still waits for what the collection held when it was declared
+  for t0 in traces:
+    via = {}
+    hit = None
+    for i, e in enumerate(t0):
+      a = e["args"]
+      if e["a"] in ("CallWhenReady", "ListenTo") and a["f"].startswith("k") and \
+         not any(x["k"] == "fire" and x["n"] == a["w"] for x in e["obs"]["log"]):
+        via[a["w"]] = [a["f"], False]
+      elif e["a"] == "Mutate":
+        for v in via.values():
+          if v[0] == a["f"]:
+            v[1] = True
+      fired = [x["n"] for x in e["obs"]["log"] if x["k"] == "fire"]
+      for w in fired:
+        if w in via and via[w][1] and e["a"] == "Register" and len(fired) == 1:
+          hit = (i, w)
+        via.pop(w, None)
+      if hit:
+        break
+    if hit:
+      i, w = hit
+      t = copy.deepcopy(t0)
+      t[i]["obs"]["log"] = [x for x in t[i]["obs"]["log"] if not (x["k"] == "fire" and x["n"] == w)]
+      out.append(("a waiter declared through a list that was changed afterwards not invoked when the "
+                  "components it named were registered", traces.index(t0), t[:i + 1]))
+      break
   return out
